@@ -53,6 +53,24 @@ def _safe_ms(v, d=-1):
         return d
 
 
+# what the documentation lists (commands/get.py, globaloptions.py): the recorder's own reading, not circus'
+_WATCHER_OPTION_KEYS = {"numprocesses", "warmup_delay", "working_dir", "uid", "gid", "send_hup", "stop_signal",
+                        "stop_children", "shell", "shell_args", "env", "max_retry", "cmd", "args", "respawn",
+                        "graceful_timeout", "executable", "use_sockets", "priority", "copy_env", "singleton",
+                        "stdout_stream_conf", "on_demand", "stderr_stream_conf", "max_age", "max_age_variance",
+                        "close_child_stdin", "close_child_stdout", "close_child_stderr"}
+_GLOBAL_OPTION_KEYS = {"endpoint", "stats_endpoint", "pubsub_endpoint", "check_delay", "multicast_endpoint"}
+
+
+def _ro_valid(cmd, pr):
+    if cmd == "get":
+        keys = pr.get("keys", [])
+        return isinstance(keys, list) and all(isinstance(k, str) and k in _WATCHER_OPTION_KEYS for k in keys)
+    if cmd == "globaloptions":
+        return (not pr.get("option")) or pr.get("option") in _GLOBAL_OPTION_KEYS
+    return True
+
+
 def _cmd_ver(cmd):
     """the version tag file mode writes into cmd (`simworker NAME vN`): stands for every key the model has no word for"""
     import re
@@ -793,6 +811,7 @@ class Sim(object):
                  "warmup_delay", 0), (int, float)) else 0,
              "addsing": bool((pr.get("options") or {}).get("singleton")) if isinstance(pr.get("options"), dict) else False}
         q["opts"] = self._set_opts(pr.get("options")) if cmd == "set" else []
+        q["rovalid"] = _ro_valid(cmd, pr)
         q["file"] = self.file_records() if cmd == "reloadconfig" else []
         q["matches"] = []
         if q["pattern"]:
